@@ -926,6 +926,13 @@ class C23(core.Check):
                     return 'array %s survived %s' % (name, op['text'])
         if dict(TAG.findall(probes['errerl'])).get('E') != ' 0  0 ':
             return 'ERR / ERL survived %s: %r' % (op['text'], probes['errerl'])
+        if cmd != 'CHAIN':
+            # free memory as in a fresh session with this program and memory size: no variable, no string
+            post = res['post']
+            want = post['total'] - post['stack'] - 2 - post['code_start'] - post['prog']
+            got = dict(TAG.findall(probes['fre'])).get('F')
+            if got is None or int(float(got)) != want:
+                return 'FRE(0) after %s is %r, a fresh session has %d' % (op['text'], probes['fre'], want)
         if dict(TAG.findall(probes['rnd'])).get('R') != ' .1213501 ':
             return 'random number sequence not reset by %s: %r' % (op['text'], probes['rnd'])
         first_data = {'CLEAR': ' 11 ', 'NEW': None, 'RUN': ' 11 ', 'CHAIN': ' 77 '}[cmd]
